@@ -276,7 +276,12 @@ func verifWFRefinement(ty Type, r unknownValRefinement, where string) error {
 			}
 		}
 		if rr.min != NilVal && rr.max != NilVal {
+			// (the library's own order on numbers: numbers that Equals calls equal - same
+			// shortest decimal rendering - are never ordered, whatever their binary values)
 			c := rr.min.v.(*big.Float).Cmp(rr.max.v.(*big.Float))
+			if rawNumberEqual(rr.min.v.(*big.Float), rr.max.v.(*big.Float)) {
+				c = 0
+			}
 			if c > 0 {
 				return bad("numeric bounds out of order: %#v > %#v", rr.min, rr.max)
 			}
